@@ -10,9 +10,21 @@ ops:  ['start', i]      the real _run.run() for container i (resource requests,
                         run flags the container aborted, like sproc run, and
                         the container is finished later like any other
       ['finish', i]     the real _finish.finish() for container i (first or
-                        repeated) - as `treadmill sproc finish`
+                        repeated), as the cleanup service runs it through
+                        RuntimeBase.finish: when finish() returns, the
+                        container directory is removed, and later finish ops
+                        of i find nothing to run on (Cleanup.invoke)
+      ['finish', i, 'keep']  the same, but the runtime is killed between
+                        _finish() and the rmtree: finish stays repeatable
       ['crash', i, k]   a finish of container i killed at its k-th boundary
-                        call (k beyond the number of calls = a normal finish)
+                        call (k beyond the number of calls = finish() returned
+                        and the directory is kept)
+      ['ffinish', i, k]     a finish of i whose k-th boundary call (or the
+      ['ffinish', i, L, n]  n-th one labelled L) fails once with OSError(EIO).
+                        If finish() raises, the container is not finished and
+                        finish is simply run again by a later op, as the
+                        cleanup service does; if it returns normally the
+                        container counts as finished (directory removed).
 Boundary call = any call that leaves the process (resource service clients,
 ipset, rule / endpoint spec files, resolver, sockets, newnet, mounts, image,
 hooks, exec ...; the full list is in pbt/netsim.py).
@@ -23,9 +35,12 @@ Oracle (state based, shares no code with _finish): the observable host state is
   owned[i] = what start i added (difference of two snapshots), whether the
   start succeeded or failed half way.  After a
   completed finish of i the state must equal the state before that finish minus
-  owned[i]; after a repeated finish it must be unchanged; a killed finish may
-  leave some of owned[i] behind but must not touch anything else, and the next
-  complete finish must remove the rest.  At every point the state must equal
+  owned[i]; after a repeated finish it must be unchanged; a killed finish, or
+  one that raised on an injected fault, may leave some of owned[i] behind but
+  must not touch anything else, and the next finish that returns normally must
+  have removed the rest.  A finish() that returns normally - with or without a
+  fault injected - has removed everything; one that raises without an injected
+  fault is a violation.  At every point the state must equal
   seeded foreign entries + the union of owned[j] over the containers j not yet
   completely finished.  Ports: per protocol all real ports of a container are
   distinct, lie in the range of its environment class, avoid busy ports and the
@@ -41,7 +56,10 @@ from pbt.run import Violation
 ID = 'C16'
 LEVEL = 'exploration'
 RULE = ('Histories of start / start with a fault injected at a generated '
-        'boundary call / finish / repeated finish / killed finish, driven '
+        'boundary call / finish / repeated finish / killed finish / finish '
+        'with a one-shot error at a generated boundary call (retried by a '
+        'later finish when it raised; container directory removed when it '
+        'returned), driven '
         'through the real run() and finish() entry points, over '
         '1-4 containers with generated manifests (0-6 endpoints tcp/udp, '
         'infra type, port 0, explicit ports equal to allocatable ports, '
@@ -69,6 +87,9 @@ ASSUMPTIONS = [
     'exit) and later by finish; an injected fault makes one boundary call '
     'raise OSError(EIO) before it has any effect; a run killed and restarted '
     'by the supervisor is not modelled',
+    'the firewall plugin is outside the repository and both call sites '
+    'swallow its errors on purpose: a fault at plugin.cleanup is modelled as '
+    'the plugin failing after it dropped its own rules',
     'a shared-network container never gets through run() in this snapshot '
     '(run waits for a network resource it did not request; the client times '
     'out): such a start is an aborted start without saved state',
@@ -97,6 +118,12 @@ FOREIGN_OFFSET = 7
 FOREIGN_OWNER = 'zz.other-0000000009-00000foreign1'
 FOREIGN_VIP = '192.168.9.9'
 # boundary labels of the start path worth aiming a fault at (see netsim)
+FINISH_FAULT_LABELS = ['resolve', 'rules.unlink_rule', 'rules.unlink_rule',
+                       'ipset.rm', 'ipset.rm', 'endpoints.unlink_all',
+                       'conntrack.flush', 'net.get', 'net.delete',
+                       'presence.delete', 'localdisk.delete', 'cgroup.delete',
+                       'plugin.cleanup', 'rrd.flush', 'archive_logs',
+                       'apphook.cleanup', 'trace.post']
 FAULT_LABELS = ['net.put', 'net.wait', 'socket.bind', 'rules.create_rule',
                 'rules.create_rule', 'endpoints.create_spec', 'ipset.add',
                 'ipset.add', 'resolve', 'plugin.apply', 'newnet', 'newnet',
@@ -175,16 +202,19 @@ def history(draw):
     ncont = draw(st.sampled_from([1, 2, 2, 3, 3, 4, 4]))
     containers = [draw(container_spec(idx)) for idx in range(ncont)]
     pending = list(range(ncont))
-    live = []       # started, not completely finished
-    done = []       # completely finished
+    live = []       # started, no plain finish issued yet
+    done = []       # finished, container directory kept (finish repeatable)
+    gone = []       # finished, container directory removed by the runtime
     ops = []
     for _ in range(draw(st.integers(ncont, 3 * ncont + 3))):
         kinds = []
         if pending:
             kinds += ['start'] * 3 + ['fstart']
         if live:
-            kinds += ['finish'] * 2 + ['crash']
+            kinds += ['finish'] * 3 + ['crash'] * 2 + ['ffinish'] * 2
         if done:
+            kinds += ['refinish'] * 2
+        if gone and not done:
             kinds += ['refinish']
         if not kinds:
             break
@@ -204,13 +234,31 @@ def history(draw):
         elif kind == 'finish':
             idx = draw(st.sampled_from(live))
             live.remove(idx)
-            done.append(idx)
-            ops.append(['finish', idx])
+            if draw(st.booleans()):
+                # the runtime is killed between _finish() and the removal
+                # of the container directory: finish stays repeatable
+                done.append(idx)
+                ops.append(['finish', idx, 'keep'])
+            else:
+                gone.append(idx)
+                ops.append(['finish', idx])
         elif kind == 'crash':
             idx = draw(st.sampled_from(live))
-            ops.append(['crash', idx, draw(st.integers(1, 30))])
+            ops.append(['crash', idx, draw(st.integers(1, 34))])
+        elif kind == 'ffinish':
+            # whether this finish raises or returns is the code's decision;
+            # the container stays in `live`, so more finishes follow.
+            idx = draw(st.sampled_from(live))
+            if draw(st.booleans()):
+                ops.append(['ffinish', idx, draw(st.integers(1, 34))])
+            else:
+                ops.append(['ffinish', idx,
+                            draw(st.sampled_from(FINISH_FAULT_LABELS)),
+                            draw(st.sampled_from([1, 1, 2, 3]))])
         else:
-            ops.append(['finish', draw(st.sampled_from(done))])
+            idx = draw(st.sampled_from(done or gone))
+            ops.append(['finish', idx] +
+                       (['keep'] if draw(st.booleans()) else []))
     if draw(st.integers(0, 3)) > 0:
         for idx in draw(st.permutations(live)) if live else []:
             ops.append(['finish', idx])
@@ -469,6 +517,13 @@ def execute(case, stats):  # pylint: disable=too-many-locals,too-many-branches
         for opno, oper in enumerate(case['ops']):
             kind, idx = oper[0], oper[1]
             where = 'op %d %r' % (opno, oper)
+            if kind not in ('start', 'fstart') and \
+                    not world.container_dir_exists(idx):
+                # the runtime removed the container directory after a finish
+                # that returned: the cleanup service has nothing to run
+                # finish() on any more (treadmill.cleanup.Cleanup.invoke)
+                stats.count('op:finish-skipped-container-dir-gone')
+                continue
             before = _flatten(world.snapshot())
 
             if kind in ('start', 'fstart'):
@@ -547,23 +602,38 @@ def execute(case, stats):  # pylint: disable=too-many-locals,too-many-branches
             cont = world.containers[idx]
             mine = owned[idx]
             others_private = [j for j in registered if j != idx and owned[j]]
-            crash_at = oper[2] if kind == 'crash' else None
+            fault = None
+            if kind in ('crash', 'ffinish'):
+                fault = {'at': oper[2]} if len(oper) == 3 else \
+                    {'label': oper[2], 'nth': oper[3]}
+            keep_dir = kind == 'crash' or (
+                kind == 'finish' and len(oper) > 2 and oper[2] == 'keep')
             repeated = idx in complete
-            try:
-                crashed = world.finish(idx, crash_at)
-            except Exception as err:  # pylint: disable=broad-except
+            outcome, detail = world.finish(idx, fault, kill=kind == 'crash')
+            fault_at = world.fault_hit
+            if outcome == 'raised' and fault_at is None:
                 raise Violation(
                     'c16.%s.raised.%s' % (
                         'refinish' if repeated else 'finish',
-                        type(err).__name__),
+                        type(detail).__name__),
                     '%s: finishing %s raised %r' % (
-                        where, cont.unique_name, err))
+                        where, cont.unique_name, detail))
+            if kind == 'ffinish':
+                if fault_at is None:
+                    stats.count('finish-fault:point-not-reached')
+                else:
+                    stats.count('finish-fault-at:' + fault_at)
+                    stats.count('finish-fault:finish-raised'
+                                if outcome == 'raised'
+                                else 'finish-fault:handled-by-the-code')
             after = _flatten(world.snapshot())
             added, removed, changed = _diff(before, after)
             foreign_removed = {k: v for k, v in removed.items()
                                if k not in mine}
             if repeated:
                 stats.count('op:refinish')
+                if outcome != 'returned':
+                    stats.count('op:refinish-' + outcome)
                 if added or removed or changed:
                     entry = sorted(list(removed) + list(added) +
                                    list(changed))[0]
@@ -574,6 +644,8 @@ def execute(case, stats):  # pylint: disable=too-many-locals,too-many-branches
                                           _fmt(removed), _fmt(added),
                                           _fmt(changed)))
                 expect_global(after, where)
+                if outcome == 'returned' and not keep_dir:
+                    world.remove_container_dir(idx)
                 continue
 
             if foreign_removed or changed:
@@ -595,17 +667,30 @@ def execute(case, stats):  # pylint: disable=too-many-locals,too-many-branches
                     '%s: finish of %s added [%s]' % (
                         where, cont.unique_name, _fmt(added)))
 
-            if crashed is not None:
-                stats.count('op:finish-killed')
-                stats.count('killed-at:' + crashed)
-                # partial: only own entries may be gone (checked above).
+            if outcome != 'returned':
+                # killed, or finish() raised on the injected fault: the
+                # container is not finished, its directory stays, and the
+                # cleanup service runs finish() again later.  Only own
+                # entries may be gone (checked above).
+                if outcome == 'killed':
+                    stats.count('op:finish-killed')
+                    stats.count('killed-at:' + detail)
+                else:
+                    stats.count('op:finish-raised-on-fault')
                 owned[idx] = {k: v for k, v in mine.items() if k in after}
                 expect_global(after, where)
                 continue
 
+            # finish() returned normally: the container counts as finished.
             stats.count('op:finish')
-            if crash_at is not None:
+            if kind == 'crash':
                 stats.count('op:finish-kill-point-beyond-end')
+            how = ''
+            if fault_at is not None:
+                how = '; finish() returned normally although its call %s ' \
+                    'failed' % fault_at
+            if cont.start_error is not None:
+                how += '; its start had failed at %s' % cont.fault_label
             left = {k: v for k, v in mine.items() if k in after}
             if left:
                 entry = sorted(left)[0]
@@ -613,9 +698,7 @@ def execute(case, stats):  # pylint: disable=too-many-locals,too-many-branches
                     'c16.leak.%s' % _kind(entry, cont),
                     '%s: after finish of %s (vip %s%s) still registered: [%s]'
                     % (where, cont.unique_name,
-                       (world.network_of(cont) or {}).get('vip'),
-                       '' if cont.start_error is None else
-                       '; its start had failed at %s' % cont.fault_label,
+                       (world.network_of(cont) or {}).get('vip'), how,
                        _fmt(left)))
             stats.count('entries_checked_removed', len(mine))
             stats.count('foreign_entries_checked_kept',
@@ -632,6 +715,13 @@ def execute(case, stats):  # pylint: disable=too-many-locals,too-many-branches
                             where, cont.unique_name))
                 # start failed before save_app: finish has nothing to go on
                 stats.count('finish:no-state-vip-still-allocated')
+            if fault_at is not None and kind == 'ffinish':
+                stats.count('finish:returned-despite-fault-all-removed')
+            if not keep_dir:
+                # RuntimeBase.finish: rmtree(container_dir) - from now on
+                # nobody can run this container's finish again
+                world.remove_container_dir(idx)
+                stats.count('finish:container-dir-removed')
             if others_private:
                 stats.count('finish:with-other-registered')
             if _is_rich(cont.spec) and mine and cont.start_error is None:
@@ -691,17 +781,37 @@ def fixed_cases():
     base = {'hosts': hosts, 'plugin': 'ok', 'foreign': foreign,
             'busy': [['tcp', 'nonprod', 0], ['udp', 'prod', -1]]}
     two = dict(base, containers=[_spec(0), _spec(1, env='prod')],
-               ops=[['start', 0], ['start', 1], ['finish', 0], ['finish', 0],
-                    ['finish', 1], ['finish', 1], ['finish', 0]])
+               ops=[['start', 0], ['start', 1], ['finish', 0, 'keep'],
+                    ['finish', 0, 'keep'], ['finish', 1, 'keep'],
+                    ['finish', 1], ['finish', 0], ['finish', 0]])
     same_name = dict(base, containers=[_spec(0), _spec(1), _spec(2, name=1)],
-                     ops=[['start', 0], ['start', 1], ['finish', 1],
-                          ['start', 2], ['finish', 1], ['finish', 0],
-                          ['finish', 2]])
+                     ops=[['start', 0], ['start', 1], ['finish', 1, 'keep'],
+                          ['start', 2], ['finish', 1, 'keep'], ['finish', 0],
+                          ['finish', 2], ['finish', 1]])
     killed = dict(base, plugin='missing',
                   containers=[_spec(0), _spec(1, env='uat')],
                   ops=[['start', 0], ['start', 1]] +
                   [['crash', 0, k] for k in (1, 4, 9, 14, 19, 23)] +
-                  [['finish', 0], ['finish', 1], ['finish', 0]])
+                  [['finish', 0, 'keep'], ['finish', 1], ['finish', 0]])
+    # one-shot errors at every kind of boundary call of finish(), next to a
+    # running container; the finish is run again until it has returned.
+    ffaults = [['resolve', 1], ['resolve', 3], ['rules.unlink_rule', 1],
+               ['rules.unlink_rule', 6], ['ipset.rm', 1], ['ipset.rm', 4],
+               ['endpoints.unlink_all', 1], ['conntrack.flush', 1],
+               ['net.get', 1], ['net.delete', 1], ['presence.delete', 1],
+               ['localdisk.delete', 1], ['cgroup.delete', 1],
+               ['plugin.cleanup', 1], ['rrd.flush', 1], ['archive_logs', 1],
+               ['apphook.cleanup', 1]]
+    ffailed = []
+    for num, (label, nth) in enumerate(ffaults):
+        ffailed.append((
+            'finish-fault-at-%s-%d' % (label, nth),
+            dict(base, plugin='ok' if num % 3 else 'missing',
+                 containers=[_spec(0), _spec(1, name=num % 2),
+                             _spec(2, env='prod')],
+                 ops=[['start', 0], ['start', 1], ['ffinish', 1, label, nth],
+                      ['finish', 1, 'keep'], ['start', 2], ['finish', 1],
+                      ['finish', 1], ['finish', 0], ['finish', 2]])))
     shared = dict(base, containers=[_spec(0, shared=True), _spec(1)],
                   ops=[['start', 0], ['start', 1], ['finish', 0],
                        ['finish', 1]])
@@ -723,13 +833,15 @@ def fixed_cases():
             'failed-start-at-%s' % label,
             dict(base, containers=[_spec(0), _spec(1, name=num % 2),
                                    _spec(2, env='prod')],
-                 ops=[['start', 0], ['fstart', 1, label, nth], ['finish', 1],
-                      ['finish', 1], ['start', 2], ['finish', 1],
-                      ['finish', 0], ['finish', 2]])))
+                 ops=[['start', 0], ['fstart', 1, label, nth],
+                      ['finish', 1, 'keep'], ['finish', 1, 'keep'],
+                      ['start', 2], ['finish', 1], ['finish', 0],
+                      ['finish', 2]])))
     counted = dict(base, containers=[_spec(0), _spec(1)],
                    ops=[['fstart', 0, 40], ['fstart', 1, 55], ['crash', 0, 9],
-                        ['finish', 1], ['finish', 0], ['finish', 1]])
-    return failed + [('failed-starts-by-count', counted),
+                        ['ffinish', 1, 12], ['finish', 1, 'keep'],
+                        ['finish', 0], ['finish', 1]])
+    return failed + ffailed + [('failed-starts-by-count', counted),
                      ('two-rich-containers', two), ('same-app-name-vip-reuse',
                                                     same_name),
             ('killed-finishes', killed), ('shared-network', shared),
